@@ -1,5 +1,5 @@
 """C07 - panicking or lying callbacks cause no double drop and no uninitialised read."""
-from .. import balance, cfg, core, model
+from .. import balance, cfg, core, model, symx
 from ..effects import ZERO, vget
 from ..facts import operand_local, operand_place
 
@@ -253,6 +253,10 @@ def rule_null(ctx, rep):
                     for u in _uses(b, l):
                         if u[0] == "move":
                             todo.append(u[1])
+                        elif u[0] == "callarg" and _callee(u[1]) in symx.IDENTITY_CALLS and not u[1]["dest"]["p"]:
+                            todo.append(u[1]["dest"]["l"])  # `.cast::<X>()` before the null test: same pointer
+                        elif u[0] == "other" and u[1] == "cast" and len(u) > 2:
+                            todo.append(u[2])
                         else:
                             final_uses.append(u)
                 if len(final_uses) != 1 or final_uses[0][0] != "callarg" or _callee(final_uses[0][1]) != "<core::ptr::non_null::NonNull<T>>::new":
@@ -273,6 +277,9 @@ def rule_null(ctx, rep):
                                 todo.append(u[1])
                             else:
                                 ouses.append(u)
+                    if ouses and all(u[0] == "other" for u in ouses) and _match_none_diverges(F, b, B, seen):
+                        rep.ok("R-NULL", ik, "null test consumed by a `match` whose `None` arm ends in the allocation-error path", cfg=tag)
+                        continue
                     allowed = ("<core::option::Option<T>>::ok_or", "<core::option::Option<T>>::ok_or_else", "<core::option::Option<T>>::unwrap_or_else", "<core::option::Option<T>>::expect", "<core::option::Option<T>>::unwrap")
                     if not ouses or any(u[0] != "callarg" or _callee(u[1]) not in allowed for u in ouses):
                         good, why = False, "the Option produced by the null test is consumed by something other than a checking combinator"
@@ -316,6 +323,8 @@ def _uses(b, l):
                 if pl is not None and pl["l"] == l:
                     if rv["k"] == "use" and not pl["p"] and not s["lhs"]["p"]:
                         out.append(("move", s["lhs"]["l"]))
+                    elif rv["k"] == "cast" and not pl["p"] and not s["lhs"]["p"] and rv.get("cast", "").startswith("PtrToPtr"):
+                        out.append(("other", "cast", s["lhs"]["l"]))
                     else:
                         out.append(("other", rv["k"]))
             if s["lhs"]["l"] == l and s["lhs"]["p"]:
@@ -331,6 +340,31 @@ def _uses(b, l):
             if pl is not None and pl["l"] == l:
                 out.append(("other", "switch"))
     return out
+
+
+def _match_none_diverges(F, b, B, opt_locals):
+    """The Option held in one of `opt_locals` is consumed by a `match`: its discriminant is switched on and the `None` arm can only
+    end in a diverging call (handle_alloc_error), never in a return."""
+    for bi, bl in enumerate(b["blocks"]):
+        t = bl["term"]
+        if t["k"] != "switch":
+            continue
+        o = B.origin(t["discr"])
+        if not (o.get("kind") == "rvalue" and o["rv"]["k"] == "discr" and o["rv"]["place"]["l"] in opt_locals and not o["rv"]["place"]["p"]):
+            continue
+        none_tgts = [tg for v, tg in t["arms"] if v == 0]
+        if len(none_tgts) != 1:
+            return False
+        reach = B.reach(none_tgts[0], normal_only=True)
+        div = False
+        for r in reach:
+            tt = b["blocks"][r]["term"]
+            if tt["k"] == "return":
+                return False
+            if tt["k"] == "call" and model.classify(_callee(tt) or "")[0] == model.DIVERGE and tt.get("target") is None:
+                div = True
+        return div
+    return False
 
 
 def _diverging_callable(F, E, t):
@@ -370,6 +404,7 @@ def _callers_diverge_on_err(F, E, A, key):
 
 
 def run(ctx, rep):
+    balance.rule_parked(ctx, rep)  # a parked caller-supplied value must be handed over before anything can unwind
     balance.rule_unw(ctx, rep)
     rep.floor("R-UNW", 60, "API bodies with at least one unwinding path")
     rule_make_after_user(ctx, rep)
